@@ -127,6 +127,10 @@ fn strat_text(_t: Tier) -> BoxedStrategy<TextCase> {
             "(19|20)[0-9]{2}-(0[1-9]|1[0-2])-(0[1-9]|[12][0-9]) (CAPRETURN|ACCUMULATION) [A-Z]{1,4} [0-9]{1,5} TOTAL [0-9]{1,7}(\\.[0-9]{1,2})?( (FEES|TAX) [0-9]{1,4})?",
             "(19|20)[0-9]{2}-(0[1-9]|1[0-2])-(0[1-9]|[12][0-9]) DIVIDEND [A-Z]{1,4} TOTAL [0-9]{1,7}( TAX [0-9]{1,4})?",
             "[0-9]{4}-[0-9]{2}-[0-9]{2} BUY A [0-9]{20,40} @ [0-9]{20,40}",
+            "2020-03-0[12] (BUY|SELL) (A|B) (0|0\\.0|1|5) @ [0-9]{1,3}( FEES [0-9])?",
+            "2020-03-0[12] (BUY|SELL) (A|B) (0|0\\.0|1|5) @ [0-9]{1,3}( FEES [0-9])?",
+            "2020-03-0[12] (SPLIT|UNSPLIT) (A|B) RATIO (0|0\\.0|1|2)",
+            "2020-03-0[12] (CAPRETURN|ACCUMULATION) (A|B) (0|1|5) TOTAL (0|1|5)",
             "#[ -~]{0,30}",
             Just(String::new()),
         ],
@@ -191,6 +195,8 @@ fn hostile_money() -> BoxedStrategy<Money> {
 
 fn hostile_date() -> BoxedStrategy<NaiveDate> {
     prop_oneof![
+        // a small pool: several hostile lines of one security on one date are the norm
+        40 => prop_oneof![Just((2020, 3, 1)), Just((2020, 3, 2)), Just((2020, 3, 31)), Just((2020, 4, 5)), Just((2020, 4, 6)), Just((2021, 1, 4))].prop_map(|(y, m, d)| NaiveDate::from_ymd_opt(y, m, d).expect("d")),
         30 => (2015i32..2026, 1u32..13, 1u32..29).prop_filter_map("d", |(y, m, d)| NaiveDate::from_ymd_opt(y, m, d)),
         4 => (1900i32..2101, 1u32..13, 1u32..29).prop_filter_map("d", |(y, m, d)| NaiveDate::from_ymd_opt(y, m, d)),
         1 => Just(NaiveDate::from_ymd_opt(1, 1, 1).expect("d")),
